@@ -452,6 +452,13 @@ package table
 //@   ensures[biggest-at-or-after-target] result <==> keycmp(s.tables[i].biggest, key) >= 0
 //@   assigns nothing
 
+//@ func (*ConcatIterator).Seek.$2
+//@   props C18 C05
+//@   requires s != nil && 0 <= i && i < n && n == len(s.tables) && s.tables[n-1-i] != nil
+//@   domain len(s.tables[n-1-i].smallest) >= 8 && len(key) >= 8
+//@   ensures[smallest-at-or-before-target] result <==> keycmp(s.tables[n-1-i].smallest, key) <= 0
+//@   assigns nothing
+
 // Next: stay in the current table while it has entries; otherwise move one table on in the
 // iterator's direction (skipping empty tables) and start at that table's first entry.
 //@ func (*ConcatIterator).Next
